@@ -125,3 +125,20 @@ void h_d_leq(void){ MK_D2(a, b); HGHOSTS; N_LEQ(&a, &b); REACH; }
 /* reflexivity: the same object on both sides */
 //@check id=d_leq_refl fn=_ZNK4crab7domains12dis_intervalIN4ikos8z_numberEEleERKS4_ tag=d_leq props=C04 unwind=6 bounded="<=2 disjuncts" vary=DS:0-3
 void h_d_leq_refl(void){ MK_D1(a); HGHOSTS; unsigned char r = N_LEQ(&a, &a); __CPROVER_assert(r, "x <= x"); REACH; }
+
+
+/* ================================================================ binary operations */
+/* result well formed (normalised, at most DMAX disjuncts); soundness at the ghost points */
+#define DBIN(tag, fn, OKZ, PRE, EXTRA, SOUND) \
+void fn(D *ret, D *self, D *x) \
+__CPROVER_requires(FRESH(tag, ret, sizeof(D)) && FRESH(tag, self, sizeof(D)) && FRESH(tag, x, sizeof(D))) \
+__CPROVER_requires(d_ok_in(self) && d_ok_in(x) && GRANGE && LOGOFF && (PRE)) \
+__CPROVER_assigns(*ret) \
+__CPROVER_ensures(d_okn(ret, DMAX, OKZ)) \
+__CPROVER_ensures(EXTRA) \
+__CPROVER_ensures(SOUND); \
+void h_##tag(void){ MK_D2(a, b); HGHOSTS; D r; fn(&r, &a, &b); REACH; }
+#define IN2 (d_has(self, g_x) && d_has(x, g_y))
+#define STRICT ((d_bot(self) || d_bot(x)) ==> d_bot(ret))
+//@check id=d_add fn=_ZNK4crab7domains12dis_intervalIN4ikos8z_numberEEplERKS4_ props=C08 unwind=6 bounded="<=2 disjuncts" vary=DS:15 timeout=900 first_timeout=600 backends=cadical,kissat
+DBIN(d_add, _ZNK4crab7domains12dis_intervalIN4ikos8z_numberEEplERKS4_, 2 * ZB, 1, STRICT, IN2 ==> d_has(ret, g_x + g_y))
